@@ -159,3 +159,30 @@ def buffer_stores(prog, fn, field=None):
                     base, ie = r[2]
                     if field is None or any(t[0] == "field" and t[2] == field for t in walk(base)):
                         yield b.idx, base, ie, resolve_var(prog, fn, s.rvalue(st[2]), s), st[3], s
+
+
+def loop_exits(prog, fn, s, header, body):
+    """exit edges of a natural loop that continue the function (not panics): list of (block, cond_expr, span)"""
+    live = set()
+    st = [b.idx for b in fn.blocks if b.term[0] == "return" and not b.cleanup]
+    while st:
+        x = st.pop()
+        if x in live:
+            continue
+        live.add(x)
+        st.extend(p for p in fn.preds(x) if not fn.blocks[p].cleanup)
+    out = []
+    for x in sorted(body):
+        t = fn.blocks[x].term
+        for y in fn.succs(x):
+            if y in body or fn.blocks[y].cleanup or y not in live:
+                continue
+            if t[0] == "switch":
+                saved = getattr(s, "_pos", None)
+                s._pos = (x, "t")
+                cond = s.operand(t[1])
+                s._pos = saved
+                out.append((x, resolve_var(prog, fn, cond, s), None))
+            else:
+                out.append((x, None, None))
+    return out
